@@ -165,11 +165,13 @@ def h_pagerank(s, n, arcs, max_iter, edges_variant=False):
     mod = importlib.import_module("solvor.pagerank")
     d = s.real("damping", 0, 1, lo_strict=True, hi_strict=True)
     tol = s.real("tol", 1e-12, None)  # below ~1e-16 the native double 1.0/n (not 1/n) decides convergence: float-only paths
-    adj = {u: [v for (a, v) in arcs if a == u] for u in range(n)}
+    # arcs whose head is >= n point outside the node set: the neighbour callback lists them, the graph does not contain them
+    raw = {u: [v for (a, v) in arcs if a == u] for u in range(n)}
+    adj = {u: [v for v in raw[u] if v < n] for u in range(n)}
     if edges_variant:
         res = mod.pagerank_edges(n, list(arcs), damping=d, max_iter=max_iter, tol=tol, backend="python")
     else:
-        res = mod.pagerank(range(n), lambda u: adj[u], damping=d, max_iter=max_iter, tol=tol)
+        res = mod.pagerank(range(n), lambda u: raw[u], damping=d, max_iter=max_iter, tol=tol)
     sc = res.solution
     ok = isinstance(sc, dict) and set(sc.keys()) == set(range(n))
     s.check(ok, "pr.scores_for_every_node")
@@ -255,6 +257,13 @@ NAMED_PR = {
     "loops_only3": (3, [(0, 0), (1, 1), (2, 2)]),
     "two_comp4": (4, [(0, 1), (1, 0), (2, 3)]),
 }
+NAMED_PR_OUT = {
+    "only_outside3": (3, [(0, 1), (1, 2), (2, 9)]),
+    "only_outside_dup3": (3, [(0, 1), (1, 0), (2, 9), (2, 9), (2, 7)]),
+    "mixed_outside3": (3, [(0, 1), (0, 9), (1, 2), (2, 0), (2, 9)]),
+    "all_outside2": (2, [(0, 5), (1, 5)]),
+    "outside_and_loop4": (4, [(0, 1), (1, 1), (1, 9), (2, 9), (3, 2), (3, 0)]),
+}
 NAMED_LV = {
     "barbell6": (6, [(0, 1), (1, 2), (0, 2), (3, 4), (4, 5), (3, 5), (2, 3)]),
     "path5": (5, [(0, 1), (1, 2), (2, 3), (3, 4)]),
@@ -305,6 +314,10 @@ def items(tier, rng):
     for k in range(len(pool) + 1):
         for sub in itertools.combinations(pool, k):
             out.append({"name": "pr3", "harness": "h_pagerank", "params": {"n": 3, "arcs": list(sub), "max_iter": mi}})
+    # outside-neighbour variants (callback form only): a node whose whole list lies outside the node set is dangling, a mixed list
+    # spreads over the inside part only
+    for nm, (n, arcs) in NAMED_PR_OUT.items():
+        out.append({"name": "pr_" + nm, "harness": "h_pagerank", "params": {"n": n, "arcs": arcs, "max_iter": mi}})
     for nm, (n, arcs) in NAMED_PR.items():
         out.append({"name": "pr_" + nm, "harness": "h_pagerank", "params": {"n": n, "arcs": arcs, "max_iter": mi}})
         out.append({"name": "pr1_" + nm, "harness": "h_pagerank", "params": {"n": n, "arcs": arcs, "max_iter": 1, "edges_variant": True}})
